@@ -851,6 +851,10 @@ where
     /// Gets the root hash at the current epoch.
     #[cfg_attr(feature = "tracing_instrument", tracing::instrument(skip_all))]
     pub async fn get_epoch_hash(&self) -> Result<EpochHash, AkdError> {
+        // The guard will be dropped at the end of the request: like every other request, this one
+        // may fill the cache and must therefore not overlap with a cache flush
+        let _guard = self.cache_lock.read().await;
+
         let current_azks = self.retrieve_azks().await?;
         let latest_epoch = current_azks.get_latest_epoch();
         let root_hash = current_azks.get_root_hash::<TC, _>(&self.storage).await?;
